@@ -60,6 +60,37 @@ def _opaque(t):
     return isinstance(t, tuple) and bool(t) and t[0] in ("acc", "carried", "after", "unknown", "mutated")
 
 
+def record_fields(pkg, name):
+    """constructor field order of a plain record class of the package: a `typing.NamedTuple` / `@dataclass` class (its annotated
+    names), or a module-level `Name = namedtuple("Name", [..] | "a b c")`; None for anything else"""
+    short = name.split(".")[-1]
+    ci = pkg.classes.get(name) or pkg.classes.get(short) or next((c for k, c in pkg.classes.items() if k.endswith("." + short)), None)
+    if ci is not None:
+        is_nt = any(b.split(".")[-1] == "NamedTuple" for b in ci.bases)
+        is_dc = any(ast.unparse(d).split("(")[0].split(".")[-1] == "dataclass" for d in ci.node.decorator_list)
+        if not (is_nt or is_dc) or (is_dc and ci.bases) or any(k in ci.methods for k in ("__init__", "__new__", "__post_init__", "__getattr__", "__getattribute__")):
+            return None
+        fields = []
+        for st in ci.node.body:
+            if isinstance(st, ast.AnnAssign) and isinstance(st.target, ast.Name):
+                if "ClassVar" in ast.unparse(st.annotation) or (isinstance(st.value, ast.Call) and "field" in ast.unparse(st.value.func)):
+                    return None
+                fields.append(st.target.id)
+        if any(f in ci.methods for f in fields):
+            return None
+        return fields or None
+    for mod in pkg.modules.values():
+        for st in mod.body:
+            if isinstance(st, ast.Assign) and len(st.targets) == 1 and isinstance(st.targets[0], ast.Name) and st.targets[0].id == short \
+                    and isinstance(st.value, ast.Call) and ast.unparse(st.value.func).split(".")[-1] == "namedtuple" and len(st.value.args) == 2 and not st.value.keywords:
+                spec = st.value.args[1]
+                if isinstance(spec, ast.Constant) and isinstance(spec.value, str):
+                    return spec.value.replace(",", " ").split() or None
+                if isinstance(spec, (ast.List, ast.Tuple)) and all(isinstance(e, ast.Constant) and isinstance(e.value, str) for e in spec.elts):
+                    return [e.value for e in spec.elts] or None
+    return None
+
+
 def pure_helper_resolver(pkg, cls):
     """name -> FunctionDef of a helper method of `cls` that may be read as the value it returns (valueflow `resolver`): any method
     except the anchors, provided it leaves its arguments alone (an in-place edit of a list handed in would be lost in the value view)"""
@@ -109,7 +140,16 @@ class OdeModel:
                 if callee is not None and callee is not self.func:
                     return callee, f_.value
             return None
-        func = inline_stmt_calls(_copy.deepcopy(self.func), _stmt_resolver)
+        func = _copy.deepcopy(self.func)
+        # a generator method that hands records to a consuming loop (`for rec in self._iter_terms(..): rhs[rec.row] += ..`) is put
+        # back in place, and a namedtuple / dataclass that only carries the values across is replaced by its fields
+        from .normalize import inline_generator_loops, scalarise_records
+        func = inline_generator_loops(func, _stmt_resolver)
+        func = scalarise_records(func, lambda name, _pkg=pkg: record_fields(_pkg, name))
+        func = inline_stmt_calls(func, _stmt_resolver)
+        # a table kept as a list of rows and flattened once (`rows[r][c] += t` .. `list(chain.from_iterable(rows))`) is the flat table
+        from .normalize import flatten_row_tables
+        func = flatten_row_tables(func)
         # one loop over a concatenation (`for sign, i in chain(zip(repeat(" - "), R), zip(repeat(" + "), P))`) is the loops it abbreviates
         from .normalize import split_concat_loops
         func = split_concat_loops(func)
